@@ -309,6 +309,7 @@ def hoist_generics():
     return _hoist[0]
 
 
+ANYERR = re.compile(r"^error: ([^\n]*)\n\s*--> at main\.capy:(\d+):\d+", re.M)
 UNDEF = re.compile(r"error: undefined reference to `(\w+)`\s*\n\s*--> at main\.capy:(\d+):(\d+)")
 
 
@@ -372,10 +373,13 @@ def check(case, stats, scratch, profile):
         want_line = use_line[undefined[0]]
         if o.kind != "rejected":
             raise Fail("C05:undefined-accepted", f"the use on line {want_line} has no visible binding but the program is accepted ({o.brief()})\n--- program ---\n{src}", replay)
-        found = {(int(m.group(2))) for m in UNDEF.finditer(o.compiler_out)}
-        other_errors = [l for l in o.errors if "undefined reference" not in l]
-        if want_line not in found or len(found) != 1 or other_errors:
-            raise Fail("C05:wrong-diagnostics", f"expected exactly one `undefined reference` error, on line {want_line}; got undefined-lines {sorted(found)} and other errors {other_errors[:3]}\n{o.compiler_out[-1200:]}\n--- program ---\n{src}", replay)
+        # "reported as undefined": an error diagnostic located on the line of that use (the wording is the compiler's
+        # business), and no error anywhere else
+        located = [(m.group(1), int(m.group(2))) for m in ANYERR.finditer(o.compiler_out)]
+        on_line = [msg for msg, ln in located if ln == want_line]
+        elsewhere = [(msg, ln) for msg, ln in located if ln != want_line]
+        if not on_line or elsewhere:
+            raise Fail("C05:wrong-diagnostics", f"expected the undefined use on line {want_line} to be reported there and nothing else; errors on that line: {on_line[:2]}, elsewhere: {elsewhere[:3]}\n{o.compiler_out[-1200:]}\n--- program ---\n{src}", replay)
         return
     if o.kind == "rejected":
         und = sorted({int(m.group(2)) for m in UNDEF.finditer(o.compiler_out)})
